@@ -13,6 +13,7 @@ import (
 	"sort"
 	"time"
 
+	"github.com/KevoDB/kevo/pkg/verifhook"
 	"github.com/KevoDB/kevo/pkg/wal"
 	rproto "github.com/KevoDB/kevo/proto/kevo/replication"
 	"google.golang.org/grpc"
@@ -239,12 +240,62 @@ type retStep struct {
 	Next     uint64  `json:"next"`
 	Uf       uint64  `json:"uf"`
 	Up       bool    `json:"up"`
+	Busy     bool    `json:"busy"`
 }
 
 func retKey(s uint64) []byte { return []byte(fmt.Sprintf("k%03d", s)) }
 func retVal(s uint64) []byte { return []byte(fmt.Sprintf("value-of-%03d", s)) }
 
-func retClass(tiny bool) *CfgClass {
+// retBigVal fills a memory table of 4096 bytes on its own
+func retBigVal(s uint64) []byte {
+	return append(retVal(s), bytes.Repeat([]byte{'.'}, 5000-len(retVal(s)))...)
+}
+
+// flushGate: every pass of the flush path through sm.flush.begin waits until the harness has seen it and lets it go, so that
+// the background flush runs exactly where the specification's walk has it (and a timer-driven flush never runs)
+type flushGate struct {
+	arrive chan struct{}
+	goon   chan struct{}
+}
+
+func newFlushGate() *flushGate {
+	fg := &flushGate{arrive: make(chan struct{}), goon: make(chan struct{})}
+	verifhook.SetGate(func(site string, a, b uint64) {
+		if site == "sm.flush.begin" {
+			fg.arrive <- struct{}{}
+			<-fg.goon
+		}
+	})
+	return fg
+}
+
+func (fg *flushGate) parked(max time.Duration) bool {
+	select {
+	case <-fg.arrive:
+		return true
+	case <-time.After(max):
+		return false
+	}
+}
+
+// pass lets the parked flush run and waits until it has finished
+func (fg *flushGate) pass(max time.Duration) bool {
+	before := verifhook.Count("sm.flush.end")
+	fg.goon <- struct{}{}
+	deadline := time.Now().Add(max)
+	for time.Now().Before(deadline) {
+		if verifhook.Count("sm.flush.end") > before {
+			return true
+		}
+		time.Sleep(time.Millisecond)
+	}
+	return false
+}
+
+func retClass(tiny, queued bool) *CfgClass {
+	if queued {
+		return &CfgClass{MemTableSize: 4096, MaxMemTables: 64, SyncMode: 2, CompactSec: 3600}
+	}
 	if tiny {
 		return &CfgClass{MemTableSize: 1, MaxMemTables: 64, SyncMode: 2, CompactSec: 3600}
 	}
@@ -275,6 +326,7 @@ func retentionLifeCmd(args []string) int {
 	dir := fs.String("dir", "", "database directory")
 	stepsJSON := fs.String("steps", "", "JSON: steps of this life; the first one is the state expected after opening")
 	tiny := fs.Bool("tiny", false, "memory table of one byte")
+	queued := fs.Bool("queued", false, "memory table of 4096 bytes, large values fill it, the background flush runs as a step of the walk")
 	maxSeq := fs.Uint64("maxseq", 6, "keys k1..kN are read back")
 	fs.Parse(args)
 	stdout := os.Stdout
@@ -290,7 +342,8 @@ func retentionLifeCmd(args []string) int {
 		fmt.Fprintln(stdout, string(b))
 	}
 	addr := replFreeAddr()
-	p, err := startReplPrimary(*dir, addr, retClass(*tiny), nil)
+	fg := newFlushGate()
+	p, err := startReplPrimary(*dir, addr, retClass(*tiny, *queued), nil)
 	if err != nil {
 		emit(map[string]interface{}{"i": 0, "ok": false, "what": "open as primary failed: " + err.Error()})
 		return 0
@@ -302,9 +355,6 @@ func retentionLifeCmd(args []string) int {
 	}
 	received := uint64(0)
 	observe := func(i int, st retStep, extra string) bool {
-		if *tiny {
-			quiesce(5 * time.Second)
-		}
 		got, err := retLogFiles(filepath.Join(*dir, "wal"))
 		if err != nil {
 			emit(map[string]interface{}{"i": i, "ok": false, "what": "cannot list the log: " + err.Error()})
@@ -324,7 +374,7 @@ func retentionLifeCmd(args []string) int {
 		for s := uint64(1); s <= *maxSeq; s++ {
 			v, err := p.eng.Get(retKey(s))
 			switch {
-			case err == nil && want[int(s)] && bytes.Equal(v, retVal(s)):
+			case err == nil && want[int(s)] && (bytes.Equal(v, retVal(s)) || bytes.Equal(v, retBigVal(s))):
 			case isNotFound(err) && !want[int(s)]:
 			case err == nil:
 				bad += fmt.Sprintf(" %s reads %q (expected: %v)", retKey(s), v, want[int(s)])
@@ -351,16 +401,46 @@ func retentionLifeCmd(args []string) int {
 	}
 	for i := 1; i < len(steps); i++ {
 		st := steps[i]
+		fail := func(what string) {
+			emit(map[string]interface{}{"i": i, "ok": false, "what": what})
+			os.Exit(0)
+		}
 		switch st.A {
-		case "put":
-			if err := p.eng.Put(retKey(st.S), retVal(st.S)); err != nil {
-				emit(map[string]interface{}{"i": i, "ok": false, "what": "put failed: " + err.Error()})
-				os.Exit(0)
+		case "put", "putbig":
+			v := retVal(st.S)
+			if st.A == "putbig" {
+				v = retBigVal(st.S)
+			}
+			if err := p.eng.Put(retKey(st.S), v); err != nil {
+				fail("put failed: " + err.Error())
+			}
+			switch {
+			case *tiny:
+				// the table is full: switched, background flush signalled; it runs to its end here
+				if !fg.parked(5*time.Second) || !fg.pass(10*time.Second) {
+					fail("the background flush did not run after a write that filled the table")
+				}
+			case *queued && st.Busy && !steps[i-1].Busy:
+				// the goroutine takes the signal and stands at the start of FlushMemTables
+				if !fg.parked(5 * time.Second) {
+					fail("the background flush did not start after a write that filled the table")
+				}
+			}
+		case "bgrun":
+			if !fg.pass(10 * time.Second) {
+				fail("the background flush did not finish")
+			}
+			if st.Busy && !fg.parked(5*time.Second) {
+				fail("the background flush did not start over although a signal was buffered")
 			}
 		case "flush":
-			if err := p.eng.FlushImMemTables(); err != nil {
-				emit(map[string]interface{}{"i": i, "ok": false, "what": "flush failed: " + err.Error()})
-				os.Exit(0)
+			done := make(chan error, 1)
+			go func() { done <- p.eng.FlushImMemTables() }()
+			if !fg.parked(5*time.Second) || !fg.pass(10*time.Second) {
+				fail("the explicit flush did not run")
+			}
+			if err := <-done; err != nil {
+				fail("flush failed: " + err.Error())
 			}
 		case "ack":
 			if received < st.S {
@@ -395,6 +475,7 @@ func retentionReplayCmd(args []string) int {
 	work := fs.String("work", "", "scratch directory")
 	out := fs.String("out", "", "results (ndjson)")
 	tiny := fs.Bool("tiny", false, "memory table of one byte (every put switches and flushes)")
+	queued := fs.Bool("queued", false, "memory table of 4096 bytes; the background flush is a step of the walk")
 	maxSeq := fs.Uint64("maxseq", 6, "keys read back")
 	fs.Parse(args)
 	self, _ := os.Executable()
@@ -443,6 +524,9 @@ func retentionReplayCmd(args []string) int {
 			cmd := exec.CommandContext(cctx, self, "retention-life", "-dir", dir, "-steps", string(sj), "-maxseq", fmt.Sprint(*maxSeq))
 			if *tiny {
 				cmd.Args = append(cmd.Args, "-tiny")
+			}
+			if *queued {
+				cmd.Args = append(cmd.Args, "-queued")
 			}
 			var stderr bytes.Buffer
 			cmd.Stderr = &stderr
